@@ -4,6 +4,7 @@ import (
 	"context"
 	"encoding/json"
 	"fmt"
+	"net"
 	"runtime"
 	"strconv"
 	"strings"
@@ -424,6 +425,7 @@ func srvRunCase(o *common.Out, id string, nconn int, reqs []sreqCase, order []in
 	// C07: the same failing request through the real client: the caller sees the text unchanged
 	if viaClient {
 		srvClientCheck(o, id, abstract, rig, reqs)
+		srvXClientCheck(o, id, abstract, rig, reqs)
 	}
 	o.Case(id, strings.Join(model, " "), obs, len(reqs) >= 2)
 	o.Count(fmt.Sprintf("conns=%d", nconn))
@@ -570,6 +572,67 @@ func srvClientCheck(o *common.Out, id, abstract string, rig *srvRig, reqs []sreq
 		o.Fail(id, "server-dead", fmt.Sprintf("probe on the same connection after the failures: err=%v reply=%+v", err, rep), abstract)
 	}
 	cancel()
+}
+
+// C07 through the discovery client, with a circuit breaker configured: failures that a live server REPORTS (handler
+// errors, panics, unknown methods) are answers of the server, each caller gets its own failure's text however many
+// came before, and a valid request that follows is served.
+func srvXClientCheck(o *common.Out, id, abstract string, rig *srvRig, reqs []sreqCase) {
+	rig.h.mu.Lock()
+	rig.h.gated = false
+	rig.h.mu.Unlock()
+	name := fmt.Sprintf("rig-%p", rig)
+	client.ConnFactories["vrig"] = func(c *client.Client, network, address string) (net.Conn, error) {
+		return rigByName(address).ln.dial()
+	}
+	registerRig(name, rig)
+	drain := func() {
+		for len(rig.h.entered) > 0 {
+			<-rig.h.entered
+		}
+		for len(rig.h.finished) > 0 {
+			<-rig.h.finished
+		}
+	}
+	for mi, mode := range []client.FailMode{client.Failfast, client.Failtry, client.Failover} {
+		if (len(reqs)+mi)%3 != 0 {
+			continue // one fail mode per case
+		}
+		d, _ := client.NewPeer2PeerDiscovery("vrig@"+name, "")
+		opt := client.DefaultOption
+		opt.SerializeType = protocol.JSON
+		opt.Retries = 1
+		opt.GenBreaker = func() client.Breaker { return client.NewConsecCircuitBreaker(2, 30*time.Second) }
+		xc := client.NewXClient("Arith", mode, client.RandomSelect, d, opt)
+		kinds := []string{"err", "panic", "nometh", "err", "err"}
+		for k, kind := range kinds {
+			var rep SReply
+			ctx, cancel := context.WithTimeout(context.Background(), 3*time.Second)
+			text := fmt.Sprintf("reported-failure-%d", k)
+			meth, args := "Mul", &SArgs{Id: 6000 + k, A: 2, B: 3, Mode: kind, Text: text}
+			want := text
+			if kind == "nometh" {
+				meth, args.Mode, want = "nometh", "ok", "rpcx: can't find method nometh"
+			}
+			err := xc.Call(ctx, meth, args, &rep)
+			cancel()
+			drain()
+			switch {
+			case err == nil:
+				o.Fail(id, "service-error-lost", fmt.Sprintf("discovery client (mode %v), failing call %d: the caller got err == nil", mode, k), abstract)
+			case !strings.Contains(err.Error(), want):
+				o.Fail(id, "error-text-changed", fmt.Sprintf("discovery client (mode %v) with a breaker, failing call %d: the server reported %q, the caller got %q", mode, k, want, shorten(err.Error())), abstract)
+			}
+		}
+		var rep SReply
+		ctx, cancel := context.WithTimeout(context.Background(), 3*time.Second)
+		if err := xc.Call(ctx, "Mul", &SArgs{Id: 6100, A: 6, B: 7, Mode: "ok"}, &rep); err != nil || rep.C != 42 {
+			o.Fail(id, "server-dead", fmt.Sprintf("discovery client (mode %v) with a breaker: a valid request after five reported failures: err=%v reply=%+v", mode, err, rep), abstract)
+		}
+		cancel()
+		drain()
+		xc.Close()
+	}
 }
 
 func genSreq(prop string, r *common.Rand, nconn int) sreqCase {
